@@ -49,7 +49,7 @@ REGISTRY = {
             "lsp_queries_pure", "hover_expr_sound", "hover_expr_complete", "goto_is_declaration",
             "hover_text_is_decl_type", "frame_roundtrip", "frames_roundtrip", "readFrame_ok_splits",
             "server_wire", "server_output_exact", "serverSpec_eq_lspRun", "lsp_over_the_wire"],
-    "C20": ["check_exit_iff_error", "cli_exit_args_literal_one", "cli_check_single_exit_guard", "check_exit_byte_iff_error",
+    "C20": ["check_exit_iff_error", "cli_exit_args_literal_one", "cli_exits_all_conditional", "check_exit_byte_iff_error",
             "sortDiags_perm", "sortDiags_sorted", "report_exit_iff", "report_exit_sorted", "report_total", "report_lists_every_diagnostic",
             "cliRun_exit_iff", "cliRun_ok_prints_result", "cliRun_error_message", "cliRun_parse_errors", "parseErrorsToString_lists"],
 }
